@@ -1,6 +1,8 @@
 (** C04: requests map to one persistent client by fixed precedence; the
     registry stays consistent.  Only statements; proofs in Proofs/ClientIndex.v. *)
+From Coq Require Import ZArith Sorting.Sorted.
 From AGH Require Import Base.Run Model.ClientIndex Proofs.ClientIndex.
+From AGH Require Import Model.ClientIDCache Proofs.ClientSettings Proofs.ClientIDCache.
 Local Open Scope N_scope.
 
 (** The invariant (every map entry points at a stored client that lists the
@@ -8,11 +10,11 @@ Local Open Scope N_scope.
     subnet list strictly sorted by [subnet_compare]) holds in every state
     reachable from the empty registry by ANY history of add / update / remove,
     accepted or rejected. *)
-Theorem C04_index_consistent : forall ops : list op, Inv (run ops empty_index).
+Theorem C04_index_consistent : forall cfg (ops : list op), Inv (run cfg ops empty_index).
 Proof. exact index_consistent. Qed.
 Print Assumptions C04_index_consistent.
 
-Theorem C04_invariant_preserved : forall ix o, Inv ix -> Inv (fst (step ix o)).
+Theorem C04_invariant_preserved : forall cfg ix o, Inv ix -> Inv (fst (step cfg ix o)).
 Proof. exact Inv_step. Qed.
 Print Assumptions C04_invariant_preserved.
 
@@ -23,26 +25,26 @@ Theorem C04_resolution : forall ix, Inv ix -> resolution_statement ix /\ owners_
 Proof. exact resolution_full. Qed.
 Print Assumptions C04_resolution.
 
-Theorem C04_resolution_any_history : forall ops,
-  resolution_statement (run ops empty_index) /\ owners_unique_statement (run ops empty_index).
+Theorem C04_resolution_any_history : forall cfg ops,
+  resolution_statement (run cfg ops empty_index) /\ owners_unique_statement (run cfg ops empty_index).
 Proof. exact resolution_any_history. Qed.
 Print Assumptions C04_resolution_any_history.
 
 (** An operation that returns an error leaves the registry equal. *)
-Theorem C04_failed_op_is_noop : forall ix o ix' e,
-  step ix o = (ix', e) -> e <> EOk -> ix' = ix.
+Theorem C04_failed_op_is_noop : forall cfg ix o ix' e,
+  step cfg ix o = (ix', e) -> e <> EOk -> ix' = ix.
 Proof. exact failed_op_is_noop. Qed.
 Print Assumptions C04_failed_op_is_noop.
 
 (** An accepted add / update never shares a name or identifier with another stored client. *)
-Theorem C04_add_rejects_sharing : forall ix c ix',
-  Inv ix -> step ix (OAdd c) = (ix', EOk) ->
+Theorem C04_add_rejects_sharing : forall cfg ix c ix',
+  Inv ix -> step cfg ix (OAdd c) = (ix', EOk) ->
   forall u c', deref ix u = Some c' -> ~ shares c c'.
 Proof. exact add_rejects_sharing. Qed.
 Print Assumptions C04_add_rejects_sharing.
 
-Theorem C04_update_rejects_sharing : forall ix n c ix',
-  Inv ix -> step ix (OUpdate n c) = (ix', EOk) ->
+Theorem C04_update_rejects_sharing : forall cfg ix n c ix',
+  Inv ix -> step cfg ix (OUpdate n c) = (ix', EOk) ->
   forall u c', deref ix u = Some c' -> c_name c' <> n -> ~ shares c c'.
 Proof. exact update_rejects_sharing. Qed.
 Print Assumptions C04_update_rejects_sharing.
@@ -105,7 +107,130 @@ Example C04_premises_satisfiable :
   acf_find ex_ix ex_dhcp [] (fe80_1 [101;116;104;48]) = Some 3 /\
   acf_find ex_ix ex_dhcp [] (fe80_1 [101;116;104;49]) = Some 1 /\
   acf_find ex_ix ex_dhcp [] (fe80_1 []) = Some 1 /\
-  snd (step ex_ix (OAdd (ex_client 5 [101] [] [v4 10 9 9 9] [] [] true true))) = EIP /\
-  snd (step ex_ix (OUpdate [97] (ex_client 6 [98] [] [] [([10;0;0;0], 8)] [] true true))) = EName /\
-  snd (step ex_ix (OUpdate [97] (ex_client 7 [97] [] [] [([10;0;0;0], 8); ([10;2;0;0], 8)] [] false false))) = EOk.
+  snd (step ex_cfg ex_ix (OAdd (ex_client 5 [101] [] [v4 10 9 9 9] [] [] true true))) = EIP /\
+  snd (step ex_cfg ex_ix (OUpdate [97] (ex_client 6 [98] [] [] [([10;0;0;0], 8)] [] true true))) = EName /\
+  snd (step ex_cfg ex_ix (OUpdate [97] (ex_client 7 [97] [] [] [([10;0;0;0], 8); ([10;2;0;0], 8)] [] false false))) = EOk.
 Proof. exact example_registry. Qed.
+
+(** * Acceptance of add / update: [Persistent.validate] with tags and upstreams *)
+
+(** An accepted record has a name, an identifier, a uid, only allowed tags,
+    and every upstream line is well-formed: empty, a comment, one address
+    the upstream package accepts, or [[/d1/d2/]u1 u2 ..] with valid domain
+    names up to the FIRST "/]", a non-empty upstream part and either the [#]
+    exclusion or only acceptable addresses. *)
+Theorem C04_validate_accepts : forall cfg c, validate cfg c = EOk -> valid_client cfg c.
+Proof. exact validate_accepts. Qed.
+Print Assumptions C04_validate_accepts.
+
+Theorem C04_upstream_line : forall addr_ok l, parse_line addr_ok l = LOk -> line_ok addr_ok l.
+Proof. exact parse_line_ok. Qed.
+Print Assumptions C04_upstream_line.
+
+Theorem C04_validate_rejects_tag : forall cfg c t,
+  In t (c_tags c) -> ~ In t (cfg_tags cfg) -> validate cfg c <> EOk.
+Proof. exact validate_rejects_tag. Qed.
+Print Assumptions C04_validate_rejects_tag.
+
+Theorem C04_validate_rejects_upstream : forall cfg c l,
+  In l (c_upstreams c) -> ~ line_ok (cfg_addr_ok cfg) l -> validate cfg c <> EOk.
+Proof. exact validate_rejects_upstream. Qed.
+Print Assumptions C04_validate_rejects_upstream.
+
+(** In every reachable state every stored record is a validated one (tags
+    allowed and sorted, upstream lines well-formed). *)
+Theorem C04_stored_records_valid : forall cfg ops u c,
+  deref (run cfg ops empty_index) u = Some c ->
+  c_name c <> [] /\ ids_len c <> 0%nat /\
+  Forall (line_ok (cfg_addr_ok cfg)) (c_upstreams c) /\
+  Forall (fun t => In t (cfg_tags cfg)) (c_tags c) /\ Sorted names_le (c_tags c).
+Proof. exact stored_records_valid. Qed.
+Print Assumptions C04_stored_records_valid.
+
+(** * From the registry to the request's effective blocked-service rules *)
+
+(** [ApplyAdditionalFiltering] on settings that carry no BlockedServices value
+    (what [dnsFilter.Settings()] returns): the chosen client's record is
+    applied as in [C04_settings], and the service rules are the client's OWN
+    list under the client's OWN pause schedule when it has its own blocked
+    services, else the global list under the global schedule. *)
+Theorem C04_effective_services : forall zone_off known ix dhcp gb t id a g,
+  Inv ix -> s_blocked g = None ->
+  exists s, apply_additional_filtering zone_off known ix dhcp gb t id a g = Some s /\
+    match acf_find ix dhcp id a with
+    | None => s = set_services (effective_services zone_off known gb t) g
+    | Some u =>
+        exists c, deref ix u = Some c /\ c_uid c = u /\
+          s = set_services (expected_services zone_off known gb t (Some c))
+                (apply_client c (set_services (effective_services zone_off known gb t) g))
+    end.
+Proof. exact additional_filtering_spec. Qed.
+Print Assumptions C04_effective_services.
+
+(** A client with its own blocked services never falls back to the global
+    list: while its own schedule pauses, nothing is blocked for it. *)
+Theorem C04_own_blocked_never_global : forall zone_off known ix dhcp gb t id a g u c b,
+  Inv ix -> s_blocked g = None ->
+  acf_find ix dhcp id a = Some u -> deref ix u = Some c ->
+  c_own_blocked c = true -> c_blocked c = Some b ->
+  exists s, apply_additional_filtering zone_off known ix dhcp gb t id a g = Some s /\
+    s_services s = (if paused zone_off b t then [] else services_of known (b_ids b)) /\
+    s_blocked s = Some b.
+Proof. exact own_blocked_never_global. Qed.
+Print Assumptions C04_own_blocked_never_global.
+
+Theorem C04_global_blocked_otherwise : forall zone_off known ix dhcp gb t id a g,
+  Inv ix -> s_blocked g = None ->
+  (forall u c, acf_find ix dhcp id a = Some u -> deref ix u = Some c -> c_own_blocked c = false) ->
+  exists s, apply_additional_filtering zone_off known ix dhcp gb t id a g = Some s /\
+    s_services s = (if paused zone_off gb t then [] else services_of known (b_ids gb)).
+Proof. exact global_blocked_otherwise. Qed.
+Print Assumptions C04_global_blocked_otherwise.
+
+Example C04_additional_premises_satisfiable :
+  let ix := run ex_cfg [OAdd ex_c] empty_index in
+  let z := fun (_ : N) (_ : Z) => 0%Z in
+  let known := [[121;116]; [102;98]] in
+  Inv ix /\
+  option_map s_services (apply_additional_filtering z known ix (fun _ => None) ex_glob 43200000000000%Z [99] ([], []) ex_g)
+    = Some [] /\
+  option_map s_services (apply_additional_filtering z known ix (fun _ => None) ex_glob 129600000000000%Z [99] ([], []) ex_g)
+    = Some [[121;116]] /\
+  option_map s_services (apply_additional_filtering z known ix (fun _ => None) ex_glob 43200000000000%Z [] ([], []) ex_g)
+    = Some [[102;98]].
+Proof. exact example_additional. Qed.
+
+(** * The ClientID hand-over HandleBefore -> processInitial *)
+
+(** For ANY interleaving of requests and any cache configuration: a request
+    whose HandleBefore extracted no ClientID reads none in processInitial,
+    whatever other requests cached (the key is the request's own unique
+    RequestID). *)
+Theorem C04_handover_no_inherit : forall cf evs rid,
+  (forall cid, In (EvBefore rid cid) evs -> cid = []) ->
+  seen_after cf evs rid = [].
+Proof. exact no_inherit. Qed.
+Print Assumptions C04_handover_no_inherit.
+
+(** A ClientID of any length that the cache admits (the server's
+    configuration admits every length) is read back unchanged, whatever
+    happened before, as long as fewer than MaxCount events of other requests
+    lie between the two stages of this request. *)
+Theorem C04_handover_survives : forall cf evs1 evs2 rid cid,
+  cid <> [] -> fits cf cid ->
+  (forall e, In e evs2 -> ~ touches rid e) ->
+  (length evs2 < cc_max_count cf)%nat ->
+  seen_after cf (evs1 ++ EvBefore rid cid :: evs2) rid = cid.
+Proof. exact survives. Qed.
+Print Assumptions C04_handover_survives.
+
+Theorem C04_handover_server_conf_fits : forall v, fits server_cache_conf v.
+Proof. exact server_conf_fits. Qed.
+Print Assumptions C04_handover_server_conf_fits.
+
+(** The MaxCount bound is real (LRU eviction), shown on MaxCount = 2. *)
+Example C04_handover_eviction_witness :
+  let cf := {| cc_max_count := 2; cc_max_elem := None |} in
+  seen_after cf [EvBefore 1 [97]; EvBefore 2 [98]; EvBefore 3 [99]] 1 = [] /\
+  seen_after cf [EvBefore 1 [97]; EvBefore 2 [98]] 1 = [97].
+Proof. exact eviction_witness. Qed.
